@@ -362,7 +362,20 @@ def register(an):
             except Infeasible:
                 from .absint_interp import DIVERGE
                 return DIVERGE
-            return ('sref', sr[1], sr[2] + s, e - s)
+            ln = e - s
+            lb_ = st.lb(ln)
+            if (lb_ is None or lb_ < 0) and not ln.is_const():
+                # the indexing succeeded, so 0 <= e - s; intervals alone do not show it (it follows from the relation s <= e):
+                # name the length, give it the non-negative range and keep it tied to e - s
+                ub_ = st.ub(ln)
+                n_ = an.fresh(st, 'usize', 0, ub_ if (ub_ is not None and ub_ >= 0) else None, 'slen')
+                try:
+                    st.assume(('cmp', 'Le', n_, ln))
+                    st.assume(('cmp', 'Le', ln, n_))
+                except Infeasible:
+                    pass
+                ln = n_
+            return ('sref', sr[1], sr[2] + s, ln)
         # usize index
         if sr is None:
             an.obligation(frame, 'bounds', 'index', t.sp, False, 'slice value unknown')
@@ -958,6 +971,9 @@ def register(an):
             e = an.as_int(an.field_of(v, 0, 'end', st, frame), st)
             if s is not None and e is not None:
                 return ('iter', 'range', s, e, v[5][0] if len(v) > 5 and v[5] else 'usize', v[1].endswith('Inclusive'))
+        if v[0] == 'adt' and v[1].split('::')[0] in ('lorawan', 'lorawan_device', 'lora_phy', 'lora_modulation'):
+            # `impl<I: Iterator> IntoIterator for I`: a workspace iterator type is its own iterator (its `next` is analysed as code)
+            return v
         return ('iter', 'opaque')
 
     @model('core::ops::range::RangeInclusive::new')
